@@ -290,14 +290,16 @@ def replay(work, scenarios, shards=4):
     return lines, time.time() - t0, bwall
 
 
-def validate(work, lines):
-    sdir = os.path.join(work, "spec")
+def _validate_chunk(work, k, lines):
+    w = os.path.join(work, "val_%d" % k)
+    os.makedirs(w, exist_ok=True)
+    sdir = os.path.join(w, "spec")
     if not os.path.isdir(sdir):
         shutil.copytree(vlib.SPEC, sdir)
     with open(os.path.join(sdir, "trace.ndjson"), "w") as fh:
         for ln in lines:
             fh.write(json.dumps(ln) + "\n")
-    r = vlib.tlc(work, "Trace_EvmWatcher", "Trace_EvmWatcher.cfg", workers=1, timeout=1800, heap="12g")
+    r = vlib.tlc(w, "Trace_EvmWatcher", "Trace_EvmWatcher.cfg", workers=1, timeout=2400, heap="6g")
     fin = vlib.tlc_prints(r["out"], "FINISHED")
     if r["violated"]:
         return [{"t": -1, "n": -1, "ev": "INVARIANT", "why": "a specification invariant is violated on the recorded behaviour",
@@ -322,6 +324,19 @@ def validate(work, lines):
         rej = dict(dead[t][0])
         rej["alts"] = dead[t]       # the same line reached with different attributions of ambiguous receipt lookups
         rejs.append(rej)
+    return rejs, r
+
+
+def validate(work, lines, parallel=4, chunk=600):
+    """TLC validates the recorded lines against Trace_EvmWatcher, `chunk` traces per TLC run."""
+    ids = sorted({ln["t"] for ln in lines})
+    groups = [set(ids[i:i + chunk]) for i in range(0, len(ids), chunk)] or [set()]
+    parts = [[ln for ln in lines if ln["t"] in g] for g in groups]
+    with concurrent.futures.ThreadPoolExecutor(max_workers=max(1, min(parallel, 6))) as ex:
+        res = list(ex.map(lambda kv: _validate_chunk(work, kv[0], kv[1]), enumerate(parts)))
+    rejs = [x for rj, _ in res for x in rj]
+    r = {"distinct": sum(x["distinct"] for _, x in res), "generated": sum(x["generated"] for _, x in res),
+         "wall_s": max(x["wall_s"] for _, x in res)}
     return rejs, r
 
 
